@@ -2,7 +2,7 @@
 import glob, json, os, re
 V = os.path.dirname(os.path.dirname(os.path.abspath(__file__)))
 rows = []
-for d in sorted(glob.glob(os.path.join(V, "seeded", "*"))):
+for d in sorted(glob.glob(os.path.join(V, "seeded", "C*"))):
     m = json.load(open(os.path.join(d, "meta.json")))
     s = re.sub(r"\s+", " ", m["summary"])
     short = s if len(s) < 230 else s[:227] + "..."
